@@ -408,6 +408,8 @@ impl<'a> GeneratorState<'a> {
     fn generate_sizeof(&mut self, expr: &Expr, pos: usize) -> Result<ExprType, Error> {
         match expr {
             Expr::Type(s) => {
+                // The words of the type, whatever is written between and around them
+                let s = s.split_whitespace().collect::<Vec<_>>().join(" ");
                 if s.contains("*") {
                     Ok(ExprType::Immediate(2))
                 } else if s == "char" {
